@@ -4,7 +4,9 @@ import sys, json
 sys.path.insert(0, '/verif')
 from vlib import runner
 u = sys.argv[1]
-r = runner.verify_unit('/repo', '/verif', u, '/verif/build', canary='--nocanary' not in sys.argv)
+import os
+REPO = os.environ.get('VERIF_REPO', '/repo')
+r = runner.verify_unit(REPO, '/verif', u, '/verif/build', canary='--nocanary' not in sys.argv)
 print('status', r.status, r.reason)
 print('verified', r.verified_fns, 'errors', r.error_fns, 'obligations', r.obligations, 'smt ms', r.solver_ms, 'wall', round(r.wall_s,1), 'canaries', r.canaries)
 for f in r.failures:
